@@ -5,10 +5,49 @@ from props._util import rng_for, run_cases
 from props.C01 import knotted
 
 LEVEL = "other"
-DEDUCTIVE = []
-TRUSTED = ["z3 5.1.0", "pulp + CBC return an optimum of the model they are given (external binary)", "CPython 3.12"]
-ASSUMPTIONS = ["T(solver): CBC/HiGHS optimality is outside the reach of contracts on this code base"]
-EXPLANATION = "see DESIGN.md 4/C02"
+DEDUCTIVE = [{"module": "rnapolis.common", "sidecar": "contracts.common_milp_c",
+              "targets": ["BpSeq.convert_to_dot_bracket@model", "BpSeq.dot_bracket@model",
+                          "lemma:esum_witness", "lemma:esum_nonneg", "lemma:esum_zero", "lemma:esum_atmost"]}]
+TRUSTED = ["z3 5.1.0 / cvc5 1.0.3", "pyvc encoding of Python semantics (DESIGN 2.3)", "CPython 3.12",
+           "the pulp model of contracts/common_milp_c.py (EXTERNALS; listed item by item in props/C13.py TRUSTED): solver objects, "
+           "LpProblem / LpVariable construction, the free term algebra of affine expressions and constraints, LpProblem.__iadd__, "
+           "LpProblem.variables(), itertools.combinations, collections.defaultdict, str.split",
+           "T-solver (LpProblem.solve), feasibility part: status == LpStatusOptimal and all variables Integer => every value is an "
+           "integer within its bounds and every constraint that was added holds",
+           "pulp + CBC/HiGHS return an OPTIMUM of the model they are given (external binary) - not used by any proof here, see "
+           "ASSUMPTIONS / EXPLANATION",
+           "callee contracts proved under C01 (contracts/common_c.py): BpSeq.__regions, BpSeq.__make_dot_bracket, BpSeq.fcfs"]
+ASSUMPTIONS = [
+    "levels30(self), degree30(self) (see props/C13.py): the contract covers structures in which no stem crosses more than 29 others",
+    "esum_definition, numeral_definition(_all), degree30_definition (definitions); split3, int_str_roundtrip (assumed facts about "
+    "str.split / int() / str()); len.set (set cardinality as an uninterpreted non-negative function): as in props/C13.py",
+    "NOT PROVED (mathematical step, stated here as an explicit assumption of the property's optimality clause): "
+    "L-enc: every proper assignment O' with levels < max_order is a feasible 0/1 point of the model whose objective value is "
+    "sum_a (len_a if O'[a] == 0 else -O'[a] * len_a), and the read-back of a feasible point has that objective value "
+    "(a double-sum rearrangement over the term list, the term list being characterised by obligation model-4-objective)",
+    "NOT PROVED: L-bound: levels >= max degree + 1 never help (an optimal proper assignment over all levels uses only levels "
+    "<= its vertex degree), so that 'maximal among proper assignments with levels < max_order' is 'maximal among all proper "
+    "assignments'",
+    "NOT PROVED: T-solver, optimality part (the reported valuation maximises the objective among feasible valuations)",
+]
+EXPLANATION = (
+    "Under contract: BpSeq.convert_to_dot_bracket@model and BpSeq.dot_bracket@model (second contracts on the functions of C13; "
+    "all C13 clauses are re-proved with them). PROVED: 'the model the code hands to the solver IS the model of the property', as "
+    "named obligations of convert_to_dot_bracket@model - model-1-conflict-graph: j in graph[i] iff stems i, j cross (symmetric, "
+    "irreflexive), from the invariant of the combinations loop; model-2-level-bound: max_order == (max over vertices of the number "
+    "of crossing stems) + 1; model-3-variables: exactly one variable per cell (region, level < max_order), bounds 0..1, Integer, "
+    "named so that the read-back parses (region, level) back (ghost row/column maps, allocation frame of the creating loops); "
+    "model-4-objective: the objective is the sum of exactly one monomial per cell with coefficient +len on level 0 and "
+    "-level*len above (ghost position map, both directions); model-5-constraints: constraints 0..n-1 are sum_o x_a_o == 1 for the "
+    "regions, every later constraint is x_a_o + x_b_o <= 1 for an edge (a, b) and a level o, and every edge has one on every "
+    "level - nothing else; model-6-read-back: with T-solver, x_a_o == 1 iff o == orders[a] (lemmas esum_witness / esum_atmost on "
+    "0/1 sums, proved by induction). ENSURES: on the MILP exit and on the empty-graph exit the result is the painting of the "
+    "stems R with a level assignment O that is PROPER (crossing stems never share a level, levels < 30) - ghost results R, O, G; "
+    "the MILP is set up only when two stems cross and otherwise every stem is on level 0 (pseudoknot-free => only round "
+    "brackets). NOT DECIDED deductively: that the assignment MAXIMISES the objective (needs the solver's optimality, L-enc and "
+    "L-bound: listed as unproved assumptions) and the corollaries 'no stem could be moved lower' / 'never worse than FCFS' - "
+    "these stay with the bounded oracles (brute-force optimum on all pairings N <= 7/9 and random knotted structures)."
+)
 
 
 def bounded(tier, seed):
